@@ -21,7 +21,10 @@ def run(tier, seed, replay=None):
         rc, out, _ = vlib.go_overlay_test("internal/unionstore", HF, "TestVerifPipelined", env={"VERIF_OUT": buf, "VERIF_SEED": str(seed),
                                           "VERIF_N": "600" if tier == "quick" else "12000"}, timeout=3000, workdir=os.path.join(wd, "go"))
         if rc != 0:
-            raise vlib.Infra("pipelined buffer harness failed:\n" + out[-3000:])
+            # a scenario that never ends is recorded by the harness itself ("hang"); the test binary then fails on the leaked
+            # goroutines, which is expected: judge the recorded history
+            if not (os.path.exists(buf) and '"ev":"hang"' in open(buf).read()):
+                raise vlib.Infra("pipelined buffer harness failed:\n" + out[-3000:])
         traces.append(("buffer", buf, "Trace_Pipelined"))
         txn_common.build_harness()
         tx = os.path.join(wd, "trace_txn.ndjson")
